@@ -1,2 +1,3 @@
+@property
 def spec(self):
     return self.monitor_pool_.monitors
